@@ -136,6 +136,15 @@ def execute(case, ctx):
                 viol("outside-untouched", "number-of-snapshot-calls-changed", f"step {si} {fn}: {len(osites)} -> {len(nsites)}")
                 continue
             changed = {i for i, (a, b) in enumerate(zip(osites, nsites)) if a.region_text != b.region_text}
+            for name in ("external", "HasRepr"):
+                inserted = any(isinstance(n, ast.ImportFrom) and n.module == "inline_snapshot" and any(a.name == name for a in n.names) for n in ast.parse(new_t).body) and not \
+                    any(isinstance(n, ast.ImportFrom) and n.module == "inline_snapshot" and any(a.name == name for a in n.names) for n in ast.parse(old_t).body)
+                if inserted:
+                    ctx.count("probe_import_inserted")
+                    used = any(isinstance(n, ast.Call) and isinstance(n.func, ast.Name) and n.func.id == name for n in ast.walk(ast.parse(new_t)))
+                    if not used:
+                        viol("only-needed-imports", f"import-of-{name}-inserted-although-the-file-does-not-use-it",
+                             f"step {si} {fn} flags={flags} driver={driver}: 'from inline_snapshot import {name}' was added but no {name}(...) call exists in the file\n{new_t[:800]}")
             whole_file = fmt["kind"] == "cmd" or (fmt["kind"] in ("absent", "raises")) or is_clean(old_t.replace("\r\n", "\n"))
             # with black absent / raising the library treats the file as 'formatted' but the formatter returns its input: no reformatting can happen
             can_reformat = (fmt["kind"] == "cmd" and fmt.get("stub") != "identity") or (fmt["kind"] == "black" and is_clean(old_t.replace("\r\n", "\n")))
